@@ -1,10 +1,17 @@
 #!/bin/sh
-# Offline setup: nothing to build for the Verus units (pure Python + the installed verus); warm the Kani harness crate if present.
+# Offline setup: the Verus units need nothing built (Python + the installed verus). The Kani harness crate is compiled once so
+# that the C18 check does not pay for building chrono on its first run.
 cd "$(dirname "$0")" || exit 1
 mkdir -p build evidence replays
 command -v verus >/dev/null || { echo "verus not on PATH"; exit 1; }
 python3 vf/main.py lint || exit 1
-if [ -d kani/harness ]; then
-  (cd kani/harness && cp /repo/Cargo.lock . 2>/dev/null; true)
+if command -v cargo-kani >/dev/null 2>&1 || command -v kani >/dev/null 2>&1; then
+  python3 - <<'PY'
+import sys
+sys.path.insert(0, '.')
+from vf import kani
+r = kani.run({'harness': 'utc_timestamp_opt_never_panics'}, 'C18')
+print('kani warm-up:', 'ok' if r.get('discharged') else r.get('undecided') or r.get('violations'))
+PY
 fi
 exit 0
